@@ -21,10 +21,11 @@ from dsim.world import SimReadHandle
 
 ID = 'C06'
 LEVEL = 'exploration'
-CLASSES = [('canonical', 5), ('foreign', 5)]
+CLASSES = [('canonical', 4), ('canonical_dom', 2), ('foreign', 5)]
 TIERS = {'quick': {}}
 RULE = ('class canonical: seeded writer histories (as C01) stored, loaded '
-        'into the object model and stored again; class foreign: seeded '
+        'into the object model and stored again; class canonical_dom: the '
+        'same for files produced by DiffX.to_bytes() of seeded trees; class foreign: seeded '
         'foreign-producer files (shuffled options, blank lines, CRLF '
         'headers, 5 JSON styles, optional options omitted incl. the main '
         'encoding); non-trivial = >= 4 sections (canonical) / the object '
@@ -42,8 +43,15 @@ STATE_MEASURE = ('distinct (class, section id, variation present: crlf / '
 
 
 def generate(rng, tier, cls):
-    if cls == 'canonical':
-        main, ops = gen.gen_history(rng)
+    if cls == 'canonical_dom':
+        from dsim import domgen
+        pool = gen.ENCS_COMMON if rng.chance(0.6) else gen.ENCS
+        prod = {'id': 'P1', 'kind': 'dom', 'file': 'f1',
+                'ops': domgen.gen_tree_ops(rng, 'T1', max_changes=3,
+                                           max_files=3, p_set=0.5,
+                                           enc_pool=pool, full=True)}
+    elif cls == 'canonical':
+        main, ops = gen.gen_history(rng, big=rng.chance(0.05))
         prod = {'id': 'P1', 'kind': 'writer', 'file': 'f1',
                 'main_encoding': main, 'ops': ops}
     else:
@@ -98,11 +106,28 @@ def execute(scn, L):
         out.discarded = 'no-producer'
         return out
 
-    canonical = actors[0].get('kind') == 'writer'
+    canonical = actors[0].get('kind') in ('writer', 'dom')
     w = pipe.make_world(scn, L, actors)
     w.run()
     out.absorb(w)
-    data = w.visible(actors[0]['file'])
+
+    if actors[0].get('kind') == 'dom':
+        # a file produced by the object model itself
+        t0 = domworld.dom_state(w).trees.get('T1')
+
+        if t0 is None:
+            out.discarded = 'no-tree'
+            return out
+
+        try:
+            data = t0.to_bytes()
+        except Exception:
+            out.discarded = 'unserialisable'
+            return out
+
+        out.probe('file_produced_by_object_model')
+    else:
+        data = w.visible(actors[0]['file'])
     out.case_key = pipe.scn_digest(data.hex())
     spans = []
 
